@@ -400,8 +400,13 @@ func Pending() int  { return 0 }
 func RunPending()   {}
 func DropPending()  {}
 
+// Watch / Unwatch: lock-discipline instrumentation, only meaningful symbolically
+// (natively the real mutexes are used and nothing is checked here).
+func Watch(mu interface{}, root interface{}) {}
+func Unwatch() int                           { return 1 }
+
 // LockHeld: ghost query, only meaningful symbolically.
-func LockHeld(mu interface{}) bool { return true }
+func LockHeld(mu interface{}) bool { return false }
 
 // Outcome is printed by the generated replay test.
 func Outcome() string {
